@@ -420,7 +420,52 @@ def model_case(nodes, ops):
     return "netmodel %s | %s" % (spec, " / ".join(toks))
 
 
-def run_netscripts(chk, n, nn_choices, length, weights, tag, extra_monitor=None):
+REASONS = ["Requested", "VersionMismatch", "TransportError", "ConnectionClosed", "ApplicationClosed", "Reset", "TimedOut", "LocallyClosed"]
+
+
+def ap_histories(trace, ranks, starts):
+    """Splits the 'active' trace of a whole-network run by ActivePeers instance and translates each
+    into an `aphist` model case.  `starts` = the node index of every node start of the scenario, in order:
+    every start creates one instance and subscribes to it at once, so the k-th instance to appear in the
+    trace belongs to the k-th start.  Returns [(own node, is the node's last incarnation, model case)]."""
+    rank = dict((int(a), int(b)) for a, b in (x.split(":") for x in ranks.split(",") if x))
+    def rk(name):
+        n = name.lstrip("n")
+        return str(rank[int(n)]) if n.isdigit() and int(n) in rank else "250"
+    def oid(x):
+        return "-" if x == "None" else x[5:-1]
+    inst, order, gen = {}, [], {}
+    for l in trace.strip("[]").split("|"):
+        f = l.split(",")
+        if len(f) < 4 or f[1] != "active":
+            continue
+        kv = dict(x.split("=", 1) for x in f[4:] if "=" in x)
+        # a node start subscribes exactly once, at once (nothing else subscribes in these scripts): a
+        # subscribe line opens a new instance even when the allocator reuses a freed instance's address
+        if f[3] == "subscribe":
+            gen[f[2]] = gen.get(f[2], 0) + 1
+        key = (f[2], gen.get(f[2], 0))
+        if key not in inst:
+            inst[key] = dict(ops=[])
+            order.append(key)
+        h = inst[key]
+        if f[3] == "add":
+            ex = re.search(r"existing=Some\(\((\d+)", l)
+            h["ops"].append("A:%s:%s:%s:%s:%s" % (rk(kv["own"]), rk(kv["peer"]), kv["id"], "o" if "Outbound" in kv["origin"] else "i", ex.group(1) if ex else "-"))
+        elif f[3] == "remove":
+            h["ops"].append("R:%s:%d:%d" % (rk(kv["peer"]), REASONS.index(kv["reason"]), kv["present"] == "true"))
+        elif f[3] == "remove_stable":
+            h["ops"].append("S:%s:%s:%d:%s" % (rk(kv["peer"]), kv["id"], REASONS.index(kv["reason"]), oid(kv["current"])))
+    if len(order) != len(starts):
+        return None, rank
+    out = []
+    for k, i in enumerate(order):
+        own = starts[k]
+        out.append((own, own not in starts[k + 1:], "aphist " + " ".join(inst[i]["ops"])))
+    return out, rank
+
+
+def run_netscripts(chk, n, nn_choices, length, weights, tag, extra_monitor=None, focus="all"):
     """Runs sequential scripts on fabric and model; compares dial results at every Dial and
     listings / reachability at every Quiesce. Returns per-script records for extra monitors."""
     scen, models, metas = [], [], []
@@ -451,7 +496,9 @@ def run_netscripts(chk, n, nn_choices, length, weights, tag, extra_monitor=None)
             continue
         chk.nontriv(sc)
         ok = True
-        for (oi, pos_res, ppos, rpcs), mr in zip(marks, mres):
+        # focus="aphist": only the active-peer histories are judged (C04); dial results, listings and
+        # reachability belong to C03 / C09 / C10 / C14 and are judged by their checks
+        for (oi, pos_res, ppos, rpcs), mr in (zip(marks, mres) if focus == "all" else []):
             op = ops[oi]
             mdial, mlist = mr.split(" L=")
             mlists = dict(x.split(":") for x in mlist.split(";"))
@@ -507,7 +554,7 @@ def run_netscripts(chk, n, nn_choices, length, weights, tag, extra_monitor=None)
                     chk.monitor_fail("disconnect(%d) at node %d left the peer listed" % (op[2], op[1]), dict(case=sc, op_index=oi))
                     ok = False
         # events: alternation per peer
-        for i in range(1, nn + 1):
+        for i in (range(1, nn + 1) if focus in ("all", "aphist") else []):
             evs = [e for e in res[epos - 1 + (i - 1)].strip("[]").split(",") if e and e != "END"]
             listed = {}
             for e in evs:
@@ -519,6 +566,33 @@ def run_netscripts(chk, n, nn_choices, length, weights, tag, extra_monitor=None)
                     ok = False
                     break
                 listed[p] = e[0] == "+"
+        # C04 on real histories: every ActivePeers instance's recorded operations (with the pre-state each saw)
+        # replayed on ActivePeers.v; for the live incarnation of a node the model's event log and listing must be
+        # the subscriber's events and the final listing
+        starts = list(range(1, nn + 1)) + [op[1] for op in ops if op[0] == "R"]
+        hists, rank = ap_histories(res[-1], res[-2], starts) if focus == "aphist" else ([], {})
+        if hists is None:
+            chk.broken.append("active-peer trace: number of instances differs from the number of node starts")
+            hists = []
+        hm = run_model([h for _, _, h in hists], shards=1) if hists else []
+        inv = dict((v, k) for k, v in rank.items())
+        for (own, live, h), m in zip(hists, hm):
+            chk.evaluations += 1
+            chk.count("active-peer-history-ops", len(h.split()) - 1)
+            if not m.startswith("accepted"):
+                chk.disagree(sc, "node %d active-peer history: %s" % (own, h[:2000]), "ActivePeers.v: " + m[:600], "simnet/aphist")
+                ok = False
+                continue
+            if not live:
+                continue
+            ml = re.search(r"L=\[(.*?)\] ev=(.*)$", m)
+            mlist = sorted(str(inv[int(x)]) for x in ml.group(1).split(",") if x)
+            mev = ["%s%d%s" % (e[0], inv[int(e[1:].split(":")[0])], (":" + REASONS[int(e.split(":")[1])]) if ":" in e else "") for e in ml.group(2).split(",") if e]
+            final_listing = sorted(x for x in res[marks[-1][2] - 1 + (own - 1)].strip("[]").split(",") if x)
+            evs = [e for e in res[epos - 1 + (own - 1)].strip("[]").split(",") if e and e != "END"]
+            if mlist != final_listing or (not any(e.startswith("LAG") for e in evs) and mev != evs):
+                chk.disagree(sc, "node %d: final listing %s events %s" % (own, final_listing, evs), "ActivePeers.v on its recorded history: listing %s events %s" % (mlist, mev), "simnet/aphist-observables")
+                ok = False
         records.append(dict(scenario=sc, ops=ops, nodes=nodes, res=res, ok=ok, marks=marks, epos=epos, out=o))
         if extra_monitor:
             extra_monitor(records[-1])
